@@ -1081,6 +1081,109 @@ def r16_9(rep: Report, idx: Index) -> None:
         raise AnalysisError('no arithmetic on flask.session values found (the error counter moved?)')
 
 
+def r16_11(rep: Report) -> None:
+    """the manifest templates read `mpd.<attr>` from a ManifestContext: an attribute that a template
+    reads without testing it first has to exist on every path through ManifestContext.__init__ - a
+    class-level default, a property, or an assignment that is reached on all normal exits (must-assign
+    analysis per mode, with summaries of the methods __init__ calls on self).  Otherwise Jinja hands a
+    filter an Undefined value: UndefinedError, HTTP 500 (e.g. a stream without a timing reference)."""
+    from ..templates import TemplateSet
+    from .c05 import MANIFESTS, _mode_eval, supported_modes
+    rid = 'R16.11'
+    MCF = 'dashlive/server/requesthandler/manifest_context.py'
+    tree = rep.repo.tree(MCF)
+    cls = need(find_class(tree, 'ManifestContext'), 'ManifestContext')
+    methods = {m.name: m for m in cls.body if isinstance(m, ast.FunctionDef)}
+    always: set[str] = set()
+    for st in cls.body:
+        if isinstance(st, ast.AnnAssign) and isinstance(st.target, ast.Name) and st.value is not None:
+            always.add(st.target.id)
+        elif isinstance(st, ast.Assign):
+            always |= {t.id for t in st.targets if isinstance(t, ast.Name)}
+        elif isinstance(st, ast.FunctionDef):
+            always.add(st.name)
+
+    def must_assigned(mname: str, mode: str, stack: tuple = ()) -> frozenset:
+        fn = methods.get(mname)
+        if fn is None or mname in stack:
+            return frozenset()
+
+        def gen(st):
+            out = []
+            tg = st.targets if isinstance(st, ast.Assign) else (
+                [st.target] if isinstance(st, (ast.AnnAssign, ast.AugAssign)) and getattr(st, 'value', None) is not None
+                else [])
+            for t in tg:
+                for x in ([t] if not isinstance(t, (ast.Tuple, ast.List)) else t.elts):
+                    if isinstance(x, ast.Attribute) and isinstance(x.value, ast.Name) and x.value.id == 'self':
+                        out.append(x.attr)
+            if not isinstance(st, (ast.If, ast.While, ast.For, ast.With, ast.Try)):
+                for c in ast.walk(st):
+                    if isinstance(c, ast.Call) and isinstance(c.func, ast.Attribute) \
+                            and isinstance(c.func.value, ast.Name) and c.func.value.id == 'self' \
+                            and c.func.attr in methods:
+                        out.extend(must_assigned(c.func.attr, mode, stack + (mname,)))
+            return out
+
+        class Dom(MustFacts):
+            def assume(self, test, s_, truth):
+                # tests on the mode are decided for the mode under analysis
+                t = norm(test)
+                m_ = re.fullmatch(r"(?:self\.options|options|opts)\.mode (==|!=) '(\w+)'", t)
+                if m_:
+                    val = (mode == m_.group(2)) == (m_.group(1) == '==')
+                    if val != truth:
+                        return None
+                return s_
+        exits: list[frozenset] = []
+
+        def on_exit(kind, st, s_):
+            if kind in ('return', 'fall'):
+                exits.append(frozenset(s_))
+        Flow(Dom(gen), on_exit=on_exit).run(fn, frozenset())
+        if not exits:
+            return frozenset()
+        out = exits[0]
+        for e in exits[1:]:
+            out = out & e
+        return out
+    ts = TemplateSet(rep.repo)
+    roots = [f'manifests/{m}' for m in MANIFESTS]
+    for r in roots:
+        ts.analyse_root(r)
+    reads: dict[tuple[str, str], list] = {}
+    for sk in ts.sinks:
+        m = re.match(r'mpd\.(\w+)', sk.expr)
+        if not m:
+            continue
+        attr = m.group(1)
+        if any(re.search(rf'\bmpd\.{attr}\b', g) for g in sk.guards):
+            continue                        # tested first: an undefined attribute is falsy, not an error
+        for mode in supported_modes(rep, sk.root_template):
+            if any(_mode_eval(g, mode) is False for g in sk.guards):
+                continue
+            reads.setdefault((attr, mode), []).append(sk)
+    if len(reads) < 10:
+        raise AnalysisError('manifest templates no longer read mpd.<attr> (template analysis changed?)')
+    cache: dict[str, frozenset] = {}
+    for (attr, mode), sinks in sorted(reads.items()):
+        if mode not in cache:
+            cache[mode] = must_assigned('__init__', mode)
+        key = f'mpd.{attr} [{mode}]'
+        if attr in always:
+            rep.ok(rid, f'{MCF}::ManifestContext', key, 'class-level default / property')
+        elif attr in cache[mode]:
+            rep.ok(rid, f'{MCF}::ManifestContext.__init__', key, 'assigned on every path')
+        else:
+            sk = sinks[0]
+            rep.fail(rid, f'{MCF}::ManifestContext.__init__', key,
+                     f'{sk.template}:{sk.line} renders `{{{{{sk.expr}{"|" + "|".join(sk.filters) if sk.filters else ""}}}}}` '
+                     f'without testing it, but some path through ManifestContext.__init__ (mode {mode}) never assigns '
+                     f'self.{attr} and the class has no default: the template gets an Undefined value '
+                     '(UndefinedError -> HTTP 500), e.g. for a stream that has no timing reference yet',
+                     methods['__init__'], file=MCF)
+
+
 def analyse(rep: Report) -> None:
     rep.explanation = (
         'Interprocedural exception-escape analysis from every routed (handler, verb) entry point '
@@ -1102,6 +1205,7 @@ def analyse(rep: Report) -> None:
     rep.rule('R16.7', 'synthetic errors fire exactly for the addressed request; no other literal 5xx',
              floor=10)
     rep.rule('R16.10', 'error positions are converted with the representation of their own media type', floor=2)
+    rep.rule('R16.11', 'attributes the manifest templates read unguarded exist on every path of ManifestContext.__init__', floor=10)
     rep.rule('R16.9', 'session values are stored in the type their readers compute with', floor=1)
     idx = Index(rep.repo)
     cg = CallGraph(idx)
@@ -1114,6 +1218,7 @@ def analyse(rep: Report) -> None:
     r16_7(rep, idx)
     r16_9(rep, idx)
     r16_10(rep, idx)
+    r16_11(rep)
     rep.assumptions = [
         'call edges are the resolved ones (CHA, typed locals, proxies); template calls are added '
         'for the three timeline generators; unresolved dynamic calls propagate nothing',
